@@ -12,7 +12,7 @@
    content of the files not mentioned in the hypotheses (stale files included). *)
 From Coq Require Import ZArith List Bool Lia.
 From IBL.lib Require Import PyInt.
-From IBL.C02 Require Import Model Proofs.
+From IBL.C02 Require Import Model Proofs Chunks.
 Import ListNotations.
 Open Scope Z_scope.
 
@@ -260,6 +260,60 @@ Qed.
 Print Assumptions C02_chunk_is_slice.
 
 (* ---------------------------------------------------------------------- *)
+(* Reading back through the .ch table.  The encoder writes the chunks one
+   after the other (cbin_stream) and records chunk_bounds / chunk_offsets.
+   Chunk k as mtscomp.Reader.read_chunk gets it — pread of
+   [offsets[k], offsets[k+1]), unzip, reshape to bounds[k+1]-bounds[k] rows in
+   Fortran order, wrapping running sum — is rows[k*size : (k+1)*size] of the
+   recording, for every int16 matrix, chunk size and chunk index.             *)
+Theorem C02_read_chunk_is_slice :
+  forall (zip unzip : list Z -> list Z) nc size (rows : list (list Z)) k,
+  (forall b, unzip (zip b) = b) -> (0 < size)%nat ->
+  Forall (fun row => length row = nc /\ Forall (fun v => -32768 <= v < 32768) row) rows ->
+  (k * size < length rows)%nat ->
+  let sz := Z.of_nat size in
+  read_chunk unzip nc (cbin_stream zip nc sz rows) (chunk_offsets zip nc sz rows)
+             (chunk_bounds (Z.of_nat (length rows)) sz) k
+  = firstn size (skipn (k * size) rows).
+Proof. exact read_chunk_is_slice. Qed.
+Print Assumptions C02_read_chunk_is_slice.
+
+(* Joint with C01 (IBL.C01.Model: validate_index, chunks_for_interval — bisect
+   on the bounds —, np_index1, slice_indices; IBL.C01.Proofs.mts_slice_pos).
+   mts_read_rows is mtscomp.Reader.__getitem__(slice(a, b, step)) on values:
+   load the chunks the interval touches, concatenate, sub-slice.  For every
+   int16 matrix, chunk size, start/stop (None, negative, beyond the end, on or
+   off a chunk boundary) and every positive or default step, reading the bytes
+   written by the encoder through the table gives exactly the rows at Python's
+   slice indices: every sample-slice position relative to the chunk
+   boundaries.  (Integers, channel selectors and calibration: C01_cbin_eq_bin.) *)
+Theorem C02_cbin_slice_read :
+  forall (zip unzip : list Z -> list Z) nc size (rows : list (list Z)) a b c,
+  (forall x, unzip (zip x) = x) -> (0 < size)%nat -> (1 <= length rows)%nat ->
+  Forall (fun row => length row = nc /\ Forall (fun v => -32768 <= v < 32768) row) rows ->
+  0 < match c with None => 1 | Some s => s end ->
+  let sz := Z.of_nat size in
+  let n := Z.of_nat (length rows) in
+  let bounds := chunk_bounds n sz in
+  let chunk k := read_chunk unzip nc (cbin_stream zip nc sz rows) (chunk_offsets zip nc sz rows)
+                            bounds (Z.to_nat k) in
+  exists l, IBL.C01.Model.slice_indices n a b c = Some l /\
+    mts_read_rows chunk bounds n a b c =
+      IBL.C01.Model.Ok (map (fun p => nth (Z.to_nat p) rows []) l).
+Proof. exact cbin_slice_read. Qed.
+Print Assumptions C02_cbin_slice_read.
+
+Example cbin_slice_example :
+  let rows := [[1; -2]; [3; 4]; [32767; -32768]; [-32768; 32767]; [0; 5]] in
+  let idz := fun b : list Z => b in
+  let bounds := chunk_bounds 5 2 in
+  let chunk k := read_chunk idz 2 (cbin_stream idz 2 2 rows) (chunk_offsets idz 2 2 rows) bounds (Z.to_nat k) in
+  chunk_offsets idz 2 2 rows = [0; 8; 16; 20] /\ bounds = [0; 2; 4; 5] /\
+  mts_read_rows chunk bounds 5 (Some 1) (Some (-1)) None = IBL.C01.Model.Ok [[3; 4]; [32767; -32768]; [-32768; 32767]] /\
+  mts_read_rows chunk bounds 5 (Some 3) None (Some 2) = IBL.C01.Model.Ok [[-32768; 32767]].
+Proof. vm_compute. auto. Qed.
+
+(* ---------------------------------------------------------------------- *)
 (* One Reader object through any sequence of open() / compress_file /
    decompress_file (either keep_original) / decompress_to_scratch (tree at
    38d7b2f), started on x.bin or x.cbin of a recording with n >= 1 samples,
@@ -285,8 +339,9 @@ Qed.
 Print Assumptions C02_object_shape_invariant.
 
 (* In any such state: the only calls that raise are the is_mtscomp guards
-   (compress_file on an object pointing at x.cbin; decompress_file /
-   decompress_to_scratch on one pointing at x.bin); open() installs the reader
+   (compress_file on an object pointing at x.cbin; decompress_file on one
+   pointing at x.bin; decompress_to_scratch(dir) on one pointing at x.bin when
+   scratch/x.bin does not exist yet — otherwise it just returns that file); open() installs the reader
    of the current file; decompress_file(keep_original=False) on an opened
    object leaves it opened on x.bin (memmap) with the fresh size.            *)
 Theorem C02_object_calls_succeed : forall w s op,
@@ -297,7 +352,7 @@ Theorem C02_object_calls_succeed : forall w s op,
   (snd (r_step w s op) = true ->
      (exists k, op = RCompress k /\ o_file (s_obj s) = DCbin) \/
      (exists k, op = RDecompress k /\ o_file (s_obj s) = DBin) \/
-     (op = RScratch /\ o_file (s_obj s) = DBin)) /\
+     (op = RScratch true /\ o_file (s_obj s) = DBin /\ s_sb s = false)) /\
   o_raw (s_obj (fst (r_step w s ROpen))) =
     (match o_file (s_obj s) with DBin => RawMemmap | DCbin => RawMtscomp end) /\
   (o_file (s_obj s) = DCbin -> o_raw (s_obj s) <> RawNone ->
